@@ -310,10 +310,16 @@ func runExact(c *hlib.Ctx, n int) {
 		}
 		r := &model3d.Ray{Origin: o, Direction: d}
 		ob := observe3(col, r)
-		c.Stat("joinx."+kindName, 1)
+		opKind := "joinx"
+		if c.Rng.Intn(3) == 0 {
+			// the same enumeration observed by a callback that queries the collider again before it returns
+			ob = obsFromActive3(c, col, r)
+			opKind = "joinrx"
+		}
+		c.Stat(opKind+"."+kindName, 1)
 		c.Stat(fmt.Sprintf("joinx.hits.%d", minInt(ob.n1, 5)), 1)
 		var sb strings.Builder
-		fmt.Fprintf(&sb, "c07 joinx %d", len(tris))
+		fmt.Fprintf(&sb, "c07 %s %d", opKind, len(tris))
 		// Mesh iteration order is a map order: the op line lists the triangles canonically sorted
 		keys := make([]string, len(tris))
 		for j, t := range tris {
@@ -342,7 +348,25 @@ func runExact(c *hlib.Ctx, n int) {
 		d := pdir3(c)
 		var o v3
 		mid := lo.Mid(hi)
-		switch c.Rng.Intn(4) {
+		nearlyVertical := false
+		switch c.Rng.Intn(5) {
+		case 4:
+			// nearly vertical: an xy component of 2^-40 .. 2^-60 (what rotating a vector by a right angle leaves),
+			// over the inside, the boundary and the outside of the outline; from above, below and between the faces
+			var dx, dy float64
+			for dx == 0 && dy == 0 {
+				if c.Rng.Intn(3) != 0 {
+					dx = spow2(c, -60, -40)
+				}
+				if c.Rng.Intn(3) != 0 {
+					dy = spow2(c, -60, -40)
+				}
+			}
+			d = model3d.XYZ(dx, dy, spow2(c, -2, 3))
+			o = model3d.XYZ(lo.X+(hi.X-lo.X)*float64(c.Rng.Intn(7)-1)/4+1.0/16, lo.Y+(hi.Y-lo.Y)*float64(c.Rng.Intn(7)-1)/4+1.0/32,
+				minZ+(maxZ-minZ)*float64(c.Rng.Intn(9)-2)/4)
+			nearlyVertical = true
+			c.Stat("profx.nearly-vertical", 1)
 		case 0:
 			o = dy3(c)
 		case 1:
@@ -357,7 +381,20 @@ func runExact(c *hlib.Ctx, n int) {
 			o = originToward(c, tgt, d)
 		}
 		r := &model3d.Ray{Origin: o, Direction: d}
+		if !nearlyVertical && c.Rng.Intn(4) == 0 {
+			// extreme direction length (power of two: still exact; the xy part stays above 2^-60, where the exact
+			// mode's square root is still accurate)
+			r.Direction = d.Scale(extremeK(c))
+			d = r.Direction
+			c.Stat("profx.extreme-direction", 1)
+		}
 		ob := observe3(col, r)
+		opKind := "profx"
+		if c.Rng.Intn(2) == 0 {
+			// the same enumeration observed by a callback that queries the collider again before it returns
+			ob = obsFromActive3(c, col, r)
+			opKind = "profrx"
+		}
 		class := "general"
 		if d.X == 0 && d.Y == 0 {
 			class = "vertical"
@@ -371,7 +408,8 @@ func runExact(c *hlib.Ctx, n int) {
 			keys[j] = v2Tok(rs, s[0]) + " " + v2Tok(rs, s[1])
 		}
 		sort.Strings(keys)
-		c.Emit(fmt.Sprintf("c07 profx %d %s %s %s %s %s", len(segs), strings.Join(keys, " "), rs(minZ), rs(maxZ), v3Tok(rs, o), v3Tok(rs, d)),
+		c.Stat(opKind, 1)
+		c.Emit(fmt.Sprintf("c07 %s %d %s %s %s %s %s", opKind, len(segs), strings.Join(keys, " "), rs(minZ), rs(maxZ), v3Tok(rs, o), v3Tok(rs, d)),
 			runStrSorted(rs, ob, 3))
 	}
 }
